@@ -136,6 +136,7 @@ def model_of_trainer(ot):
 
 
 N_PREFIXED = [0]
+n_tool_differs = [0]
 
 
 class _Refuses:
@@ -425,10 +426,25 @@ def main(pid, tier, seed):
                 for src in pws[:4]:
                     if src:
                         cands.add((src * 10)[:L])
+            cands.update(['bob@aol.com', 'www.abc.com', 'abc.com', pws[0] + '@aol.com', 'www.' + pws[0] + '.com'])
+            from . import check_score as _cs
+            tool = None
+            try:
+                tool = _cs.make_scorer(res['dir'])
+            except Exception:
+                tool = None
             cl = []
             for s in sorted(cands):
                 tr = find_omen_level(ot, s)
                 scv = sc.parse(s)
+                if tool is not None:
+                    try:
+                        tv = tool.parse(s)[3]        # the OMEN column of password_scorer's output
+                    except Exception:
+                        tv = -2
+                    if tv != scv:
+                        scv = tv
+                        n_tool_differs[0] += 1
                 gu = where.get(s, -3)
                 cl.append([omen.ids_of(s, ids), tr, scv, gu])
             cnts = {int(a): int(b) for a, b in (l.split('\t') for l in rulesets.neutral_read(os.path.join(od, 'omen_pws_per_level.txt')))}
@@ -521,7 +537,7 @@ def main(pid, tier, seed):
     nontriv = [t for t in traces if (t['kind'] == 'level' and len(t['ev']) > 1) or t['kind'] in ('agree', 'keyspace')]
     distinct = len({json.dumps({k: v for k, v in t.items() if k != 'tid'}, sort_keys=True) for t in nontriv})
     s = nontriv[min(5, len(nontriv) - 1)] if nontriv else traces[0]
-    cov = {'smoothing': smoothing, 'model_space_models_also_drained_from_the_real_generator': n_model_drained[0], 'models_written_with_lines_sorted_by_level_or_reversed': n_reordered[0], 'trainings_fed_in_prefixcount_form': N_PREFIXED[0], 'levels_too_large_to_drain_whose_keyspace_the_specification_still_counted': n_counted_only[0], 'levels_whose_training_passwords_were_counted_in_the_generator_output': n_counted_by_generator[0], 'states': mc['states'], 'transitions': mc['transitions'],
+    cov = {'smoothing': smoothing, 'scorer_tool_levels_differing_from_OmenScorer': n_tool_differs[0], 'model_space_models_also_drained_from_the_real_generator': n_model_drained[0], 'models_written_with_lines_sorted_by_level_or_reversed': n_reordered[0], 'trainings_fed_in_prefixcount_form': N_PREFIXED[0], 'levels_too_large_to_drain_whose_keyspace_the_specification_still_counted': n_counted_only[0], 'levels_whose_training_passwords_were_counted_in_the_generator_output': n_counted_by_generator[0], 'states': mc['states'], 'transitions': mc['transitions'],
            'traces_validated_against_impl': len(traces),
            'samples': [{'meta': {k: v for k, v in meta[s['tid']].items() if k != 'model'}, 'trace': core.short(s, 700)}],
            'model_checking': mc, 'evaluations': len(traces), 'distinct_nontrivial': distinct,
